@@ -1,6 +1,6 @@
 (* IdxGapChain.v — the chain of levels built by PGMIndex::build, with the additional invariant that
    at every level all real segment keys except the last one are at most last_data_key + 1. *)
-Require Import Base Fp PlaModel PlaSpec GenLeaf IndexModel IndexProofs MappedQueries IdxFed IdxSeg IdxBlock IdxLevel IdxSearch0 IdxRoute IdxChain IdxMain IdxBeyond IdxFuel IdxGapPla IdxGap.
+Require Import Base Fp PlaModel PlaSpec PlaComplete GenLeaf IndexModel IndexProofs MappedQueries IdxFed IdxSeg IdxBlock IdxLevel IdxSearch0 IdxRoute IdxChain IdxMain IdxBeyond IdxFuel IdxGapPla IdxGap.
 From Coq Require Import ZifyBool.
 Local Open Scope Z_scope.
 
@@ -82,6 +82,13 @@ Proof.
   apply (no_split_tail _ _ _ _ _ _ _ _ M1 Hpar Hne' Hss Hw' Hsz He1 c1 cs cs2 c2' E1); lia.
 Qed.
 
+(* an upper level: built over at least two keys, and (2*eps_r+1) * (number of its segments that the
+   next level indexes) <= number of its keys + (2*eps_r+1) (+ the chunking term of the parallel driver) *)
+Definition shrinkP (c : cfg) (r : lrec) : Prop :=
+  2 <= zlen (lr_keys r) /\ lr_ln r * (2 * c_epsrec c + 1) <=
+    zlen (lr_keys r) + (2 * c_epsrec c + 1) +
+    (if (c_par c =? 1) || (zlen (lr_keys r) <? par_threshold) then 0 else (c_par c - 1) * (2 * c_epsrec c + 1)).
+
 (* one iteration of the loop in build, carrying tail1 *)
 Lemma build_upper_step2 c ldk k r rl segs1 ln1 :
   1 <= kbits (c_kt c) -> 1 <= c_par c -> 1 <= c_epsrec c ->
@@ -91,7 +98,7 @@ Lemma build_upper_step2 c ldk k r rl segs1 ln1 :
   level_float_ok c (c_epsrec c) keys' ldk k ->
   build_level c (c_epsrec c) keys' (lr_ln r) ldk (below (r :: rl)) = Ok (segs1, ln1) ->
   exists r', lrec_ok c ldk k r' /\ link c r r' /\ segs1 = below (r' :: r :: rl) /\ lr_ln r' = ln1 /\
-             tail1 ldk (lr_new r').
+             tail1 ldk (lr_new r') /\ shrinkP c r'.
 Proof.
   intros Hb Hpar He1 Hok Hln Hsz' Ht1 keys' Hfl H.
   destruct (next_keys c ldk k r Hb Hok) as (Hl1 & Hl2 & Hz & Ek & Hss & Hko & Hhd). fold keys' in Hz, Ek, Hss, Hko, Hhd.
@@ -109,10 +116,18 @@ Proof.
     do 6 (split; [assumption|]). eapply tail_ok_last; eauto. }
   assert (Hlink : link c r r').
   { unfold link, r'. cbn [lr_keys lr_eps]. split; [reflexivity|]. split; [reflexivity | exact Hz]. }
-  exists r'. split; [exact Hok'|]. split; [exact Hlink|]. split; [|split; [reflexivity|]].
+  exists r'. split; [exact Hok'|]. split; [exact Hlink|]. split; [|split; [reflexivity|split]].
   - rewrite Es, (below_cons r'). unfold lr_L, r'. cbn [lr_new lr_T]. reflexivity.
   - apply (tail1_step c ldk k r r' fed cnt Hb Hpar Hok Hok' Hlink He1); [|exact M1|exact Ht1].
     unfold r'. cbn [lr_keys]. lia.
+  - unfold shrinkP, r'. cbn [lr_keys lr_ln]. split; [lia|].
+    pose proof (upper_count _ _ _ _ _ _ _ _ M1 Hpar Hne' Hss Hw' ltac:(lia) ltac:(lia)) as Hc.
+    assert (Hln1 : ln1 <= zlen new) by (destruct Htail as [(_ & _ & ->)|(_ & -> & _)]; lia).
+    destruct (Lv_len _ _ _ _ _ _ HL) as [Lg Lc].
+    assert (Ecnt : cnt = zlen new).
+    { destruct (level_blocks _ _ _ _ _ _ _ _ M1 Hpar Hne' Hs' Hw' ltac:(lia)) as (g0 & G1 & G2 & G3 & _).
+      pose proof (Forall2_len _ _ _ _ _ G2) as E1. unfold zlen in *. lia. }
+    rewrite Ecnt in Hc. nia.
 Qed.
 
 Definition T1 (ldk : Z) (r : lrec) : Prop := tail1 ldk (lr_new r).
@@ -126,16 +141,16 @@ Lemma build_upper_chain2 c ldk k :
     zlen segsF < 2 ^ 32 ->
     exists up, chainR c ldk k (up ++ r :: rl) /\ segsF = below (up ++ r :: rl) /\
                offsF = offs_of (up ++ r :: rl) /\
-               lr_ln (hd r (up ++ r :: rl)) <= 1 /\ Forall (T1 ldk) (up ++ r :: rl).
+               lr_ln (hd r (up ++ r :: rl)) <= 1 /\ Forall (T1 ldk) (up ++ r :: rl) /\ Forall (shrinkP c) up.
 Proof.
   intros Hb Hpar He1 He64. induction fuel as [|f IH]; intros rl r segsF offsF Hch HT Hfl H Hsz.
   - cbn [build_upper] in H. destruct ((c_epsrec c =? 0) || (lr_ln r <=? 1)) eqn:Ec; [|discriminate H].
     injection H as <- <-. exists []. cbn [app hd]. split; [exact Hch|]. split; [reflexivity|]. split; [reflexivity|].
-    split; [|exact HT]. apply orb_true_iff in Ec. destruct Ec as [Ec|Ec]; lia.
+    split; [|split; [exact HT|constructor]]. apply orb_true_iff in Ec. destruct Ec as [Ec|Ec]; lia.
   - cbn [build_upper upper_float_ok] in H, Hfl.
     destruct ((c_epsrec c =? 0) || (lr_ln r <=? 1)) eqn:Ec.
     { injection H as <- <-. exists []. cbn [app hd]. split; [exact Hch|]. split; [reflexivity|]. split; [reflexivity|].
-      split; [|exact HT]. apply orb_true_iff in Ec. destruct Ec as [Ec|Ec]; lia. }
+      split; [|split; [exact HT|constructor]]. apply orb_true_iff in Ec. destruct Ec as [Ec|Ec]; lia. }
     assert (Eoff : nth (length (offs_of (r :: rl)) - 2) (offs_of (r :: rl)) 0 = zlen (below rl)).
     { rewrite offs_len. cbn [length]. replace (S (S (length rl)) - 2)%nat with (length rl) by lia.
       exact (offs_nth [r] rl). }
@@ -152,12 +167,13 @@ Proof.
     assert (Hln64 : lr_ln r + 1 + c_epsrec c < 2 ^ 64 - 1).
     { destruct (next_keys c ldk k r Hb Hok) as (_ & Hl2 & _). pose proof (zlen_below_cons_ge0 r rl). lia. }
     destruct (build_upper_step2 c ldk k r rl segs1 ln1 Hb Hpar He1 Hok ltac:(lia) Hln64 (Forall_inv HT) Hfl1 E)
-      as (r' & Hok' & Hlink & Es1 & Eln1 & Ht').
+      as (r' & Hok' & Hlink & Es1 & Eln1 & Ht' & Hsh').
     subst ln1. rewrite Es1 in H, Hfl2.
     assert (Hch' : chainR c ldk k (r' :: r :: rl)) by (cbn [chainR]; cbn [chainR] in Hch; tauto).
-    destruct (IH (r :: rl) r' segsF offsF Hch' ltac:(constructor; assumption) Hfl2 H Hsz) as (up & U1 & U2 & U3 & U4 & U5).
+    destruct (IH (r :: rl) r' segsF offsF Hch' ltac:(constructor; assumption) Hfl2 H Hsz) as (up & U1 & U2 & U3 & U4 & U5 & U6).
     exists (up ++ [r']). rewrite <- !app_assoc. cbn [app]. split; [exact U1|]. split; [exact U2|]. split; [exact U3|].
-    split; [|exact U5]. destruct up; cbn [app hd] in *; exact U4.
+    split; [|split; [exact U5|apply Forall_app; split; [exact U6|constructor; [exact Hsh'|constructor]]]].
+    destruct up; cbn [app hd] in *; exact U4.
 Qed.
 
 Theorem build_chain_gap c data ix k :
@@ -169,7 +185,7 @@ Theorem build_chain_gap c data ix k :
     chainR c (last_z data) k (up ++ [r0]) /\ lr_keys r0 = data /\
     ix = mkIndex (zlen data) (hd 0 data) (below (up ++ [r0])) (offs_of (up ++ [r0])) /\
     lr_ln (hd r0 (up ++ [r0])) <= 1 /\
-    Forall (T1 (last_z data)) (up ++ [r0]) /\
+    Forall (T1 (last_z data)) (up ++ [r0]) /\ Forall (shrinkP c) up /\
     (extra_test c (zlen data) (last (lr_new r0) dseg) = true ->
      sg_key (extra_seg c (last_z data) (zlen data)) <= k -> k < sentinel c ->
      eval_ok c 1 0 (extra_seg c (last_z data) (zlen data)) k).
@@ -204,8 +220,8 @@ Proof.
   { constructor; [|constructor]. unfold T1. exact (tail1_level0 c k r0 Hb Hok0). }
   rewrite <- Eo in E3, Hfu. rewrite <- Eb in E3, Hfu. change ln with (lr_ln r0) in E3, Hfu.
   destruct (build_upper_chain2 c (last_z data) k Hb Hpar He1 He64 _ [] r0 segsF offsF Hch0 HT0 Hfu E3 Hsz)
-    as (up & U1 & U2 & U3 & U4 & U5).
+    as (up & U1 & U2 & U3 & U4 & U5 & U6).
   exists up, r0. split; [exact U1|]. split; [reflexivity|]. split; [rewrite U2, U3; reflexivity|].
-  split; [exact U4|]. split; [exact U5 | exact Fext].
+  split; [exact U4|]. split; [exact U5|]. split; [exact U6 | exact Fext].
 Qed.
 Print Assumptions build_chain_gap.
